@@ -884,6 +884,16 @@ def _f111(vio):
         vio.get("kind") in ("outcome-differs", "value-differs")
 
 
+@mechanism("F110d-numba-virtual-field-access")
+def _f110d(vio):
+    """x["field"] / x.field on a VirtualArray of records inside compiled code returns the records unchanged (or is
+    refused by the typer)"""
+    case = vio.get("case") or {}
+    det = vio.get("detail") or {}
+    return _c20(vio) and case.get("wrap") == "virtual" and det.get("program") == "field" and \
+        vio.get("kind") in ("value-differs", "compiled-code-refused", "outcome-differs")
+
+
 @mechanism("F10-reduce-nonlocal")
 def _f10(vio):
     rep = _report(vio)
